@@ -32,6 +32,7 @@ type Config struct {
 	Tier         int
 	CexSamples   int
 	NoPortfolio  bool
+	IncTO        int // seconds for the long-lived incremental solver before the one-shot fallback
 }
 
 // ----- path termination sentinels (Go panics unwinding the interpreter)
@@ -112,6 +113,7 @@ type Interp struct {
 	S      *sym.Solver
 	MS     *sym.Solver // solver holding the last model
 	alts   map[string]*sym.Solver
+	flat   *sym.Solver
 	Sh     *Shared
 	zeroB  *sym.Term
 	nextObj int
@@ -184,7 +186,11 @@ func NewShared() *Shared {
 
 func NewInterp(prog *ssa.Program, cfg Config, sh *Shared) (*Interp, error) {
 	b := sym.NewBuilder()
-	s, err := sym.NewSolver(b, cfg.SolverKind, cfg.SolverTO)
+	inc := cfg.SolverTO
+	if cfg.IncTO > 0 && cfg.IncTO < inc {
+		inc = cfg.IncTO
+	}
+	s, err := sym.NewSolver(b, cfg.SolverKind, inc)
 	if err != nil {
 		return nil, err
 	}
@@ -326,33 +332,37 @@ func (in *Interp) checkPC(pc []*sym.Term, extra *sym.Term) sym.Result {
 				ex = ex[:300]
 			}
 		}
+		if d := os.Getenv("GOSMT_SLOWDUMP"); d != "" {
+			os.WriteFile(fmt.Sprintf("%s/slow_%d_%d.smt2", d, os.Getpid(), in.S.Queries), []byte(sym.Script(in.B, pc, extra)), 0o644)
+		}
 		fmt.Fprintf(os.Stderr, "SLOW query %.1fs -> %v path=%d fixes=%v pc=%d\n  at %s\n  extra=%s\n", time.Since(t0).Seconds(), r, in.pathID, vals, len(pc), strings.Join(in.stackStrings(), " <- "), ex)
 	}
 	if r != sym.Unknown || in.Cfg.NoPortfolio {
 		return r
 	}
-	for _, kind := range []string{"z3-new", "cvc5", "z3"} {
-		if kind == in.S.Kind {
+	// the incremental (push/pop) mode of the solvers skips most preprocessing; a fresh process
+	// with plain assertions often answers at once what the incremental one gives up on
+	for _, kind := range []string{"z3", "z3-new", "cvc5"} {
+		if in.flat != nil {
+			in.Sh.mu.Lock()
+			in.Sh.Stats.Queries += in.flat.Queries
+			in.Sh.Stats.SolverS += in.flat.Time.Seconds()
+			in.Sh.mu.Unlock()
+			in.flat.Close()
+			in.flat = nil
+		}
+		a, err := sym.NewSolver(in.B, kind, in.Cfg.SolverTO)
+		if err != nil {
 			continue
 		}
-		alt := in.alts[kind]
-		if alt == nil {
-			a, err := sym.NewSolver(in.B, kind, in.Cfg.SolverTO)
-			if err != nil {
-				continue
-			}
-			if in.alts == nil {
-				in.alts = map[string]*sym.Solver{}
-			}
-			in.alts[kind] = a
-			alt = a
-		}
-		r2 := alt.Check(pc, extra)
+		a.Flat = true
+		in.flat = a
+		r2 := a.Check(pc, extra)
 		in.local.AltQueries++
 		if r2 != sym.Unknown {
 			in.S.Unknowns-- // decided by the portfolio
 			in.local.AltDecided++
-			in.MS = alt
+			in.MS = a
 			return r2
 		}
 	}
@@ -1006,6 +1016,9 @@ func (in *Interp) Close() {
 	in.Sh.Stats.SolverErrors = append(in.Sh.Stats.SolverErrors, in.S.Errors...)
 	in.Sh.mu.Unlock()
 	in.S.Close()
+	if in.flat != nil {
+		in.alts = map[string]*sym.Solver{"flat": in.flat}
+	}
 	for _, a := range in.alts {
 		in.Sh.mu.Lock()
 		in.Sh.Stats.Queries += a.Queries
